@@ -135,6 +135,54 @@ let c11 (args : string list) : string =
        String.concat " " (List.map resp_str rs @ [Printf.sprintf "| off=%s hl=%d lr=%d" (hex_of_n d.M.off) hl lr]))
   | [] -> "BADCASE"
 
+(* ------------------------------------------------------------ C15 *)
+let ns_of (v : string) : n list =
+  if v = "-" || v = "" then [] else List.map n_of_hex (String.split_on_char ',' v)
+let kv (t : string) : string * string =
+  match String.index_opt t '=' with
+  | Some i -> (String.sub t 0 i, String.sub t (i + 1) (String.length t - i - 1))
+  | None -> (t, "")
+let opt_of (l : n list) : n option = match l with x :: _ -> Some x | [] -> None
+
+let c15 (toks : string list) : string =
+  (* split at "|" *)
+  let rec groups acc cur = function
+    | [] -> List.rev (List.rev cur :: acc)
+    | "|" :: r -> groups (List.rev cur :: acc) [] r
+    | t :: r -> groups acc (t :: cur) r in
+  let gs = groups [] [] toks in
+  let get g k = try ns_of (List.assoc k (List.map kv g)) with Not_found -> [] in
+  match gs with
+  | [] -> "BADCASE"
+  | mg :: rest ->
+    (* functions and their blocks *)
+    let fns = ref [] in
+    List.iter (fun g ->
+      match g with
+      | "F" :: fields -> fns := (fields, ref []) :: !fns
+      | "B" :: fields -> (match !fns with (_, bs) :: _ -> bs := fields :: !bs | [] -> ())
+      | _ -> ()) rest;
+    let mkblock g = { M.b_label = opt_of (get g "label"); M.b_insts = get g "instructions" } in
+    let mkfn (g, bs) = { M.f_def = opt_of (get g "def"); M.f_end = opt_of (get g "end");
+                         M.f_params = get g "parameters"; M.f_blocks = List.rev_map mkblock !bs } in
+    let fl = List.rev_map mkfn !fns in
+    let m = { M.m_caps = get mg "capabilities"; M.m_exts = get mg "extensions"; M.m_imports = get mg "ext_inst_imports";
+              M.m_memory_model = opt_of (get mg "memory_model"); M.m_entry_points = get mg "entry_points";
+              M.m_exec_modes = get mg "execution_modes"; M.m_debug_string_source = get mg "debug_string_source";
+              M.m_debug_names = get mg "debug_names"; M.m_debug_module_processed = get mg "debug_module_processed";
+              M.m_annotations = get mg "annotations"; M.m_types_global_values = get mg "types_global_values";
+              M.m_functions = fl } in
+    let show l = if l = [] then "-" else join_n "," l in
+    let ev scope fn idx = show (M.c15_eval_case m (coq_string_of scope) (coq_string_of fn) (nat_of_int idx)) in
+    let parts = ref [ "all=" ^ ev "Module" "all_inst_iter" 0; "allm=" ^ ev "Module" "all_inst_iter_mut" 0;
+                      "glob=" ^ ev "Module" "global_inst_iter" 0; "globm=" ^ ev "Module" "global_inst_iter_mut" 0;
+                      "asm=" ^ ev "Module" "assemble_into" 0 ] in
+    List.iteri (fun i _ ->
+      parts := !parts @ [ Printf.sprintf "f%d=%s" i (ev "Function" "all_inst_iter" i);
+                          Printf.sprintf "f%dm=%s" i (ev "Function" "all_inst_iter_mut" i);
+                          Printf.sprintf "f%da=%s" i (ev "Function" "assemble_into" i) ]) fl;
+    String.concat ";" !parts
+
 let c19long (args : string list) : string =
   match args with
   | [nh] ->
@@ -160,6 +208,7 @@ let () =
         | "c19" :: r -> c19 r
         | "c19long" :: r -> c19long r
         | "c11" :: r -> c11 r
+        | "c15" :: r -> c15 r
         | _ -> "BADCASE" in
       print_string out; print_char '\n'
     done
